@@ -36,6 +36,13 @@ def PyStr (s : Str) : Prop := ∀ c ∈ s, c < 0x110000
 
 instance (s : Str) : Decidable (PyStr s) := by unfold PyStr; infer_instance
 
+/-- Results of the models are comparable by evaluation (`decide`). -/
+instance instDecEqExcept {ε α : Type} [DecidableEq ε] [DecidableEq α] : DecidableEq (Except ε α)
+  | .ok a, .ok b => if h : a = b then isTrue (by rw [h]) else isFalse (fun he => h (by cases he; rfl))
+  | .error a, .error b => if h : a = b then isTrue (by rw [h]) else isFalse (fun he => h (by cases he; rfl))
+  | .ok _, .error _ => isFalse (fun he => by cases he)
+  | .error _, .ok _ => isFalse (fun he => by cases he)
+
 /-! ### Cursor and fixed-width integers (`read_fmt` / `write_fmt`) -/
 
 /-- `fp.seek(pos); fp.read(n)` on a `BytesIO` over `d`: short at the end. -/
@@ -119,6 +126,17 @@ decoding of any UTF-16 text: the two would have been one character). -/
 def NoPair : Str → Prop
   | a :: b :: r => ¬ (isHigh a ∧ isLow b) ∧ NoPair (b :: r)
   | _ => True
+
+/-- `NoPair` is decidable (used by the non-vacuity examples and the driver). -/
+def NoPair.dec : (s : Str) → Decidable (NoPair s)
+  | [] => isTrue trivial
+  | [_] => isTrue trivial
+  | a :: b :: r =>
+    match NoPair.dec (b :: r) with
+    | isTrue h => if hp : isHigh a ∧ isLow b then isFalse (fun hn => hn.1 hp) else isTrue ⟨hp, h⟩
+    | isFalse h => isFalse (fun hn => h hn.2)
+
+instance (s : Str) : Decidable (NoPair s) := NoPair.dec s
 
 /-- Writes a count of units and the units (shared by the string writer and the re-save lemma). -/
 def writeUnits (us : List Nat) (pad : Nat) : Except Err BL :=
@@ -307,6 +325,16 @@ def readName (e : Encoding) (d : BL) (pos : Nat) (block : Option BL) : Except Er
       match readUnicodeString ub 0 1 with
       | .error er => .error er
       | .ok (n, _) => .ok ({ legacy := leg, luni := some n }, p)
+
+/-! ### The string codec before repo commit 312dc11 (kept as the record of the defect) -/
+
+/-- `array.array("H", [ord(x) for x in value])`: one 16-bit unit per character,
+`OverflowError` above U+FFFF. -/
+def encUnitsOld (s : Str) : Except Err (List Nat) :=
+  if s.all (· < 65536) then .ok s else .error .overflowError
+
+/-- `"".join(unichr(num) for num in chars)`: one character per unit, pairs stay apart. -/
+def decUnitsOld (us : List Nat) : Str := us
 
 /-! ### UTF-16 from the Unicode Standard (independent specification) -/
 
